@@ -147,6 +147,7 @@ def run_pipeline(tier, replay_behaviours=None):
     else:
         behs = replay_behaviours
     allb, bid = {}, 0
+    shaped = {}
     groups = {}
     for fam, bs in behs.items():
         stats["behaviours"][fam] = len(bs)
@@ -167,7 +168,8 @@ def run_pipeline(tier, replay_behaviours=None):
             allb[bid] = rec
             # three trace files of similar size so that validation runs as three TLC processes
             groups.setdefault(bid % 3, []).append(rec)
-            if has_none and fam in ("weak_ihsig", "weak_rhsig", "weak_idsig") and "nonesig" not in b:
+            if has_none and fam in ("weak_ihsig", "weak_rhsig", "weak_idsig") and "nonesig" not in b and shaped.get(fam, 0) < 60:
+                shaped[fam] = shaped.get(fam, 0) + 1     # (all of the quick tier's scripts, the first 60 per family beyond)
                 for shape in NONE_SHAPES:
                     if shape != rec["nonesig"]:
                         bid += 1
